@@ -31,7 +31,7 @@ Definition obs_all (u : list nodeT) (T : nat) (froms : list nat) (s : store) :=
 Definition vm_case (u : list nodeT) (T : nat) (froms : list nat) (cfg : config) (h : list (op * orders)) :=
   let N := length u in
   let sr := fold_left (fun acc oo =>
-              let r := step N (u_mf u) (u_succs u) (u_subj u) (u_sk u) true true true cfg (fst acc) oo in
+              let r := step N (u_mf u) (u_succs u) (u_subj u) (u_sk u) true true true true cfg (fst acc) oo in
               (fst r, snd acc ++ [snd r])) h (store_empty, []) in
   let s := fst sr in
   (snd sr, obs_all u T froms s, obs_all u T froms (reopen N (u_mf u) (u_succs u) s), disk_valid s).
@@ -224,7 +224,7 @@ CONFIG = {
         "graph.Memory is represented by its node set, Predecessors derived as {p in nodes | n in succs p} (graph.Memory's representation invariant, C07); IndexAll's per-call tracker is modelled as 'skip nodes already in the graph'; its goroutines are not modelled",
         "Go map iteration orders (saveIndex two passes, gcIndex tagged pass and every round of the referrer pass, per Delete queue iteration the Referrers and Remove sets) are explicit choice lists and the theorems quantify over all of them; the untag loop of delete() is order-independent by construction. Go's order is not controllable, so the extracted model is run with pseudo-random orders and the compared observables must be (and on the repaired code are) independent of them; histories now include Delete cascades through referrers and never-stored children, GC with untagged subject chains and tags moved between nodes",
         "encoding/json round trip of index.json and os file operations are exercised by the harness on real directories, not proved; internal/fs/tarfs is modelled at the level of cleaned names (Model/TarFS.v: last entry of a cleaned name wins, non-regular entries unsupported) and tied by unit cases through a verifhooks re-export; path.Clean is a parameter; archive/tar framing (the pos - blockSize re-read, PAX / GNU long-name records) is exercised on six archive styles, not proved",
-        "the model follows the repaired Delete / gcIndex / resolver.Memory.Tag of /repo main (C09's fixes); the referrer pass as found (GC hang, F1) is kept behind fixF1=false with result RHang (C08_gc_hang_prefix); os.ReadDir/os.Remove errors of GC's sweep are not modelled; files under blobs/ that are no content are modelled by kind (gc_sweeps_stray) outside the store record; blob files written behind the store's back (OInject) are restricted to non-manifest content in the theorems",
+        "the model follows the repaired Delete / gcIndex / resolver.Memory.Tag of /repo main (C09's fixes); Delete's pending/held referrers (fixHold) included; the referrer pass as found (GC hang, F1) is kept behind fixF1=false with result RHang (C08_gc_hang_prefix); os.ReadDir/os.Remove errors of GC's sweep are not modelled; files under blobs/ that are no content are modelled by kind (gc_sweeps_stray) outside the store record; blob files written behind the store's back (OInject) are restricted to non-manifest content in the theorems",
     ],
     "level_text": "Coq theorems over all histories of Push/Tag/Untag/Delete/GC/SaveIndex/read-write reopen, all universes (DAG, media types), both AutoGC settings and all Go map iteration orders: with AutoSaveIndex (or after SaveIndex) the store reloaded from index.json + blobs answers exactly like the running store (tag list, tag->descriptor up to the ref-name annotation, Resolve by digest, Exists/Fetch, Predecessors) and every index.json entry points to a stored blob; proved as a store invariant + 'index.json is an order-independent projection of the resolver map' + load-after-save identity, about an executable model that is extracted and run against content/oci on random histories over real directories reopened three ways (oci.New, NewFromFS(os.DirFS), NewFromTar), with an independent reopen/layout/predecessor oracle",
     "level_note": "full for the repaired code (GC saves index.json; GC keeps digest references of kept content; C09's Delete/gcIndex/resolver fixes); the pre-fix code is refuted by C08_reopen_equiv_refuted_gc, C08_reopen_equiv_refuted_gc_digest_ref and C08_gc_hang_prefix; the three reopen paths share loadIndex over an fs.FS in the model: oci.New only adds file creation on a missing layout, NewFromTar adds internal/fs/tarfs, modelled separately (C08_tar_view: an archive of the directory gives the os.DirFS view); tar framing, JSON and the file system are exercised, not proved; thorough tier re-evaluates 200 sampled histories inside Coq (vm_compute) against the extracted runner",
